@@ -249,6 +249,11 @@ func runC01(c *core.Ctx) {
 			for _, rcase := range core.ReturnCases(f) {
 				nRet++
 				isPtr, known := false, false
+				for _, cnd := range rcase.Facts {
+					if ip, subj, kn := c01kindIsPtrFact(p, cnd, 0); kn && (subj == nil || core.Resolve(subj) == ssa.Value(f.Params[0])) {
+						isPtr, known = ip, true
+					}
+				}
 				for _, m := range rcase.Cmps() {
 					// Kind(obj) == reflect.Ptr (22)
 					call, isC := core.Resolve(m.X).(*ssa.Call)
@@ -628,6 +633,11 @@ func c01reflectGuard(p *core.Prog, f *ssa.Function, call *ssa.Call, method strin
 	// guards are looked up at the call and, for extracted helpers, at every call site of the helper
 	inCtx := func(pred func(*ssa.BasicBlock) bool) bool { return core.HoldsInCtx(p, call.Block(), pred) }
 	kindIsPtr := func(b *ssa.BasicBlock) bool {
+		for _, cnd := range core.EdgeFacts(b) {
+			if isPtr, _, known := c01kindIsPtrFact(p, cnd, 0); known && isPtr {
+				return true
+			}
+		}
 		for _, m := range core.EdgeCmps(b) {
 			if m.Op == token.EQL && core.IsIntConst(m.Y, 22) {
 				if k, ok := core.Resolve(m.X).(*ssa.Call); ok {
@@ -804,4 +814,51 @@ func c01localOnly(a *ssa.Alloc) bool {
 		}
 	}
 	return true
+}
+
+
+// c01kindIsPtrFact: the decided condition says whether the reflect kind of some value is reflect.Ptr - a comparison
+// `Kind(x) == reflect.Ptr` / `reflect.ValueOf(x).Kind() == reflect.Ptr`, or a predicate of the package that returns
+// exactly such a comparison of its own parameter (IsPtr). Returns (isPtr, the tested value as seen by the caller, known).
+func c01kindIsPtrFact(p *core.Prog, cnd core.Cond, depth int) (bool, ssa.Value, bool) {
+	if m, ok := core.AsCmp(cnd); ok && (m.Op == token.EQL || m.Op == token.NEQ) && core.IsIntConst(m.Y, int64(22)) {
+		if k, isC := core.Resolve(m.X).(*ssa.Call); isC {
+			if g := core.Callee(&k.Call); g != nil && core.FuncName(g) == "fpgo.Kind" && len(k.Call.Args) == 1 {
+				return m.Op == token.EQL, core.Unwrap(k.Call.Args[0]), true
+			}
+			if core.StdCallee(&k.Call) == "reflect.(Value).Kind" && len(k.Call.Args) == 1 {
+				var subj ssa.Value
+				if vo, isVO := core.Resolve(k.Call.Args[0]).(*ssa.Call); isVO && core.StdCallee(&vo.Call) == "reflect.ValueOf" {
+					subj = core.Unwrap(vo.Call.Args[0])
+				}
+				return m.Op == token.EQL, subj, true
+			}
+		}
+	}
+	n := core.Normalize(cnd)
+	call, isC := n.V.(*ssa.Call)
+	if !isC || depth > 1 {
+		return false, nil, false
+	}
+	g := core.Callee(&call.Call)
+	if g == nil || !p.InRepo(g) || len(g.Blocks) == 0 || g.Signature.Results().Len() != 1 {
+		return false, nil, false
+	}
+	cases := core.ReturnCases(g)
+	if len(cases) != 1 {
+		return false, nil, false
+	}
+	isPtr, subj, known := c01kindIsPtrFact(p, core.Cond{V: core.Resolve(cases[0].Vals[0]), True: true}, depth+1)
+	if !known || subj == nil {
+		return false, nil, false
+	}
+	for i, prm := range g.Params {
+		if ssa.Value(prm) == core.Resolve(subj) && i < len(call.Call.Args) {
+			if !n.True {
+				isPtr = !isPtr
+			}
+			return isPtr, core.Unwrap(call.Call.Args[i]), true
+		}
+	}
+	return false, nil, false
 }
